@@ -564,8 +564,11 @@ class Items:
             return
         if v == 'macro_rules':
             p.next(); p.next(); p.ident(); p.skip_balanced('{', '}'); return
-        # anything else: a macro invocation item such as sm! { … }
-        if k == 'id' and p.peek(1)[1] == '!':
+        # anything else: a macro invocation item such as sm! { … } or crate::validate_fields!( … )
+        j = 0
+        while k == 'id' and p.peek(j)[0] == 'id' and p.peek(j + 1)[1] == '::': j += 2
+        if k == 'id' and p.peek(j)[0] == 'id' and p.peek(j + 1)[1] == '!':
+            for _ in range(j): p.next()
             p.next(); p.next()
             o = p.peek()[1]; p.skip_balanced(o, {'(': ')', '{': '}', '[': ']'}[o]); p.eat(';'); return
         raise TranslateError(f'item not understood at {v!r}')
